@@ -521,7 +521,12 @@ func foreignErrno(n syscall.Errno) error {
 	if err := types.UnmarshalAny(l.Details.FullDetails, &pl); err != nil {
 		panic(err)
 	}
+	// the sender's platform: another OS for odd errno values, the same OS on another CPU
+	// (whose errno numbering differs) for even ones
 	pl.Arch = "plan9:mips"
+	if n%2 == 0 {
+		pl.Arch = "linux:mips64"
+	}
 	any, err := types.MarshalAny(&pl)
 	if err != nil {
 		panic(err)
